@@ -22,7 +22,10 @@ def build(spec):
     from flamapy.core.models.ast import AST
     from flamapy.metamodels.fm_metamodel.models import FeatureModel, Constraint
     root = build_feature(spec["root"])
-    ctcs = [Constraint(c["name"], AST(build_ast(c["ast"]))) for c in spec.get("ctcs", [])]
+    # spec["share_nodes"]: structurally equal sub-expressions of all constraints are ONE Node object (the
+    # expression "trees" are DAGs, as the dependency's own to_cnf()/simplify_formula() produce them)
+    memo = {} if spec.get("share_nodes") else None
+    ctcs = [Constraint(c["name"], AST(build_ast(c["ast"], memo))) for c in spec.get("ctcs", [])]
     return FeatureModel(root, ctcs)
 
 
@@ -42,20 +45,31 @@ def build_feature(s):
                          list(d.get("elements", [])) or None)
             f.add_attribute(Attribute(a["name"], dom, a.get("default"), a.get("null")))
         else:
-            f.add_attribute(Attribute(a["name"], None, a.get("value")))
+            if "null" in a:
+                f.add_attribute(Attribute(a["name"], None, a.get("value"), a["null"]))   # rarely used 4th argument
+            else:
+                f.add_attribute(Attribute(a["name"], None, a.get("value")))
     for r in s.get("rels", []):
         ch = [build_feature(c) for c in r["children"]]
         f.add_relation(Relation(f, ch, r["min"], r["max"]))
     return f
 
 
-def build_ast(a):
+def build_ast(a, memo=None):
     from flamapy.core.models.ast import Node, ASTOperation as Op
+    if memo is not None:
+        key = json.dumps(a)
+        if key in memo:
+            return memo[key]
     if not isinstance(a, (list, tuple)):
-        return Node(a)
-    if len(a) == 2:
-        return Node(Op[a[0]], build_ast(a[1]))
-    return Node(Op[a[0]], build_ast(a[1]), build_ast(a[2]))
+        n = Node(a)
+    elif len(a) == 2:
+        n = Node(Op[a[0]], build_ast(a[1], memo))
+    else:
+        n = Node(Op[a[0]], build_ast(a[1], memo), build_ast(a[2], memo))
+    if memo is not None and isinstance(a, (list, tuple)):
+        memo[key] = n            # operator nodes are shared; leaves stay separate objects
+    return n
 
 
 # ----------------------------------------------------------------------------- observer
@@ -497,7 +511,37 @@ def inplace_edit_ast(ast_obj, ast_spec, r, names, ops=("AND", "OR", "IMPLIES")):
                 if isinstance(sub, list):
                     stack.append((k, sub))
     n, s = r.choice(pairs)
-    kind = r.choice(["operator", "leaf", "operand"])
+    kind = r.choice(["operator", "leaf", "operand", "shape", "shape"])
+    if kind == "shape":
+        # re-hang existing nodes so that the pre-order lists of operators and of operands stay what they were
+        cands = [(nn, ss) for nn, ss in pairs if len(ss) == 3 and ss[0] in LOGICAL and isinstance(ss[1], list)]
+        r.shuffle(cands)
+        for nn, ss in cands:
+            left_s = ss[1]
+            if len(left_s) == 3 and left_s[0] in LOGICAL:
+                # rotation: (x op2 y) op z  ->  x op (y op2' z) with the SAME two operator nodes
+                lnode = nn.left
+                a, b, c = lnode.left, lnode.right, nn.right
+                nn.left, lnode.left, lnode.right, nn.right = a, b, c, lnode
+                sa, sb, sc = left_s[1], left_s[2], ss[2]
+                ss[1], ss[2] = sa, [left_s[0], sb, sc]
+                return new
+            if left_s[0] == "NOT" and isinstance(ss[2], list) and len(ss[2]) == 3 and ss[2][0] in LOGICAL:
+                # widen a negation: !x op (y op2 z)  ->  !(x op2 y) op z
+                notn, m = nn.left, nn.right
+                a, b, c = notn.left, m.left, m.right
+                m.left, m.right, notn.left, nn.right = a, b, m, c
+                sa, sm = left_s[1], ss[2]
+                ss[1], ss[2] = ["NOT", [sm[0], sa, sm[1]]], sm[2]
+                return new
+            if left_s[0] == "NOT":
+                # move a negation: !x op y  ->  x op !y
+                notn = nn.left
+                a, b = notn.left, nn.right
+                notn.left, nn.left, nn.right = b, a, notn
+                ss[1], ss[2] = left_s[1], ["NOT", ss[2]]
+                return new
+        kind = "operator"
     if kind == "operator" and s[0] in LOGICAL and s[0] != "NOT":
         cands = [o for o in ops if o != s[0]]
         newop = r.choice(cands)
